@@ -152,14 +152,18 @@ def engArithVV (s : St) (op : String) (tc : List String) (a b : Dense) (o : Opts
         let s ← eOp s c.win b.win f fv
         pure ⟨s, none, .fresh c⟩
 
-/-- `scalarToHeader` on a rank-0 tensor: a fresh header over the first element of its storage window (a scalar
-    view may sit on a window of several cells) -/
-def scalarWin (w : Win) : Win := if w.len ≥ 1 then { w with len := 1, cap := 1 } else { w with cap := w.len }
-
 /-- a scalar operand: a literal (fresh one-cell header) or the memory of a rank-0 tensor -/
 structure ScalarArg where
   win : Win
   dt : String
+
+/-- `scalarToHeader` on a rank-0 tensor operand: a fresh one-cell header holding a *copy* of the tensor's element
+    (`ScalarValue()` = cell 0 of its storage window, which may be longer when the scalar is a view); the kernels
+    never see the operand's own memory -/
+def tenScalar (st : St) (t : Dense) : St × ScalarArg :=
+  match st.get t.win 0 with
+  | .ok v => let (st, b) := st.alloc #[v]; (st, { win := ⟨b, 0, 1, 1⟩, dt := t.dt })
+  | .error _ => (st, { win := { t.win with cap := t.win.len }, dt := t.dt })
 
 /-- arithmetic `StdEng.<Op>Scalar(t, s, leftTensor, opts...)` -/
 def engArithScalar (s : St) (op : String) (tc : List String) (t : Dense) (sc : ScalarArg) (leftTensor : Bool) (o : Opts) :
